@@ -27,7 +27,7 @@ CONFIG = dict(
         "whole-table compaction; this reading holds trivially for the current code)",
     ],
     units=[
-        dict(test="TestC24", quick=6000, thorough=800000, shards=16, steps=40),
+        dict(test="TestC24", quick=12000, thorough=1600000, shards=16, steps=40),
         dict(test="TestC24CompactPrefixes", kind="plain"),
         dict(test="FuzzC24", kind="fuzz", fuzztime="60s", tiers=["thorough"]),
     ],
